@@ -73,12 +73,17 @@ def run_chunk(arg):
                 out["viol"].append(("C13:single-block-iterator-differs-from-mem", dict(buffer=buf.decode(), blocks=parts, mem=whole, iterator=ref)))
             if len(parts) > 1:
                 # a partition that cuts none of the occurrences found in the whole buffer must give the whole buffer's result
+                # rule by rule: a rule none of whose own occurrences (in the whole buffer) is cut must be reported exactly as for the whole buffer
                 cuts = set(itertools.accumulate(parts[:-1]))
-                occ = [(x[0], x[1]) for m in whole["t"] if m[0] in ("m", "n") for sid in m[2] for x in sid[1]]
-                if not any(o < c < o + l for (o, l) in occ for c in cuts) and obs(ref) != obs(whole):
-                    diff = sorted(set(m[1] for m in whole["t"] if m[0] == "m") ^ set(m[1] for m in ref["t"] if m[0] == "m")) or ["match-lists"]
-                    out["viol"].append(("C13:multi-block-iterator-differs-from-mem:%s" % diff[0].split(":")[-1], dict(buffer=buf.decode(), blocks=parts, mem=whole, iterator=ref)))
-                out["evals"] += 1
+                wm = [m for m in whole["t"] if m[0] in ("m", "n")]; rm = {m[1]: m for m in ref["t"] if m[0] in ("m", "n")}
+                for m in wm:
+                    occ = [(x[0], x[1]) for sid in m[2] for x in sid[1]]
+                    if any(o < c < o + l for (o, l) in occ for c in cuts): continue
+                    out["evals"] += 1
+                    if rm.get(m[1]) != m:
+                        out["viol"].append(("C13:multi-block-iterator-differs-from-mem:%s" % m[1].split(":")[-1], dict(buffer=buf.decode(), blocks=parts, rule=m[1], mem=m, iterator=rm.get(m[1]))))
+                if ref["rc"] != whole["rc"] or [m[0] for m in ref["t"]] [-1:] != ["fin"]:
+                    out["viol"].append(("C13:multi-block-iterator-differs-from-mem:rc-or-finish", dict(buffer=buf.decode(), blocks=parts, mem=whole, iterator=ref)))
             ncalls = (len(parts) if parts else 1) + 1
             cmds, scripts = [], []
             for r in (1, 2):
